@@ -263,6 +263,27 @@ def rule_r6(chk, db):
                     "a field spelled `X-Amz-Meta-Foo` is silently dropped from the object write" % ", ".join(x for x, _ in sensitive[:3]))
 
 
+def rule_r7(chk, db, v):
+    """the form verifier is entered only for POST requests: multipart/form-data is a legal Content-Type of an ordinary PUT as well, and such a
+    request carries its credentials in the headers / query, not in a form"""
+    from .. import guards
+    name = db.root_of(v.body).name
+    sites = [(b, bi, t) for b, bi, t in db.callers_of(name) if b.crate == "s3s" and "::tests::" not in b.name]
+    chk.floor("R7", len(sites), 1, "call sites of the form verifier")
+    for b, bi, t in sites:
+        ok = False
+        for f in guards.dominating_facts(b, bi):
+            if f[0] != "call" or not (f[1].endswith("PartialEq::eq") and f[2] is True or f[1].endswith("PartialEq::ne") and f[2] is False):
+                continue
+            ct = b.blocks[f[3]]["term"]
+            cs = [flow.const_of(b, a) for a in ct["args"]]
+            if any(c is not None and c.get("c") == "item" and c.get("def") == "http::method::Method::POST" for c in cs):
+                ok = True
+        chk.verdict(ok, "R7", "form-verifier-only-for-POST@%s" % short(db.root_of(b).name), b.loc(bi),
+                    "the POST-form verifier is reached without the request method having been compared with POST: a PUT whose Content-Type is "
+                    "multipart/form-data is treated as a browser upload instead of reaching its own operation")
+
+
 def run(chk, db, tier):
     roles = Roles(db)
     vs = sigcore.run_common(chk, db, {"v4-post"}, ["s3s::sig_v4::methods::calculate_signature"])
@@ -279,6 +300,9 @@ def run(chk, db, tier):
     chk.guard("R4", rule_r4, db)
     chk.guard("R5", rule_r5, db)
     chk.guard("R6", rule_r6, db)
+    chk.rule("R7", "the form verifier is entered only when the request method is POST")
+    for v in vs:
+        chk.guard("R7", rule_r7, db, v)
 
 
 META = {
